@@ -3,6 +3,7 @@
 package main
 
 import (
+	"sync/atomic"
 	"bytes"
 	"encoding/json"
 	"fmt"
@@ -249,8 +250,161 @@ func c11Exec(c *c11Case) map[string]interface{} {
 	return out
 }
 
+// ---- overlapping evaluations of ONE monad and reconfiguration while an evaluation is in flight (MonadIO!JudgeConc / JudgeReconf)
+type c11ConcOut struct {
+	Part      string   `json:"part"`
+	N         int      `json:"n"`
+	ObOn      string   `json:"obOn"`
+	SubOn     string   `json:"subOn"`
+	NewSub    string   `json:"newSub"`
+	Effects   []c11Del `json:"effects"`   // value produced by each evaluation and the goroutine it ran on
+	Delivered []c11Del `json:"delivered"` // OnNext deliveries
+	Kind      string   `json:"kind"`
+}
+
+func c11Conc(w *ndWriter) int {
+	n := 0
+	for _, ob := range []string{"nil", "h1"} {
+		for _, k := range []int{2, 3} {
+			for _, mode := range []string{"busy-handler", "goroutines"} {
+				e := &c11Env{thr: map[int64]string{gid(): "caller"}, h: map[string]*fpgo.HandlerDef{}}
+				e.h["h1"], e.h["h2"] = fpgo.Handler.NewByCh(make(chan func(), 8)), fpgo.Handler.NewByCh(make(chan func(), 8))
+				out := c11ConcOut{Part: "conc", N: k, ObOn: ob, SubOn: "h2", NewSub: "-", Kind: "ok", Effects: []c11Del{}, Delivered: []c11Del{}}
+				ok := e.syncHandler("h1") && e.syncHandler("h2")
+				var count int32
+				var mu sync.Mutex
+				m := fpgo.MonadIONewGenerics(func() int { // the k-th evaluation yields k
+					v := int(atomic.AddInt32(&count, 1))
+					who := e.who()
+					mu.Lock()
+					out.Effects = append(out.Effects, c11Del{v, who})
+					mu.Unlock()
+					return v
+				})
+				done := make(chan struct{}, 8)
+				sub := fpgo.Subscription[int]{OnNext: func(v int) {
+					who := e.who()
+					mu.Lock()
+					out.Delivered = append(out.Delivered, c11Del{v, who})
+					mu.Unlock()
+					done <- struct{}{}
+				}}
+				var hob *fpgo.HandlerDef
+				if ob == "h1" {
+					hob = e.h["h1"]
+				}
+				// the subscribe handler is busy while all k evaluations run: their deliveries queue up behind it
+				unblock, started := make(chan struct{}), make(chan struct{})
+				e.h["h2"].Post(func() { close(started); <-unblock })
+				<-started
+				if mode == "goroutines" {
+					var wg sync.WaitGroup
+					for i := 0; i < k; i++ {
+						wg.Add(1)
+						go func() { defer wg.Done(); m.ObserveOn(hob).SubscribeOn(e.h["h2"]).Subscribe(sub) }()
+					}
+					wg.Wait()
+				} else {
+					for i := 0; i < k; i++ {
+						m.ObserveOn(hob).SubscribeOn(e.h["h2"]).Subscribe(sub)
+					}
+				}
+				deadline := time.Now().Add(2 * time.Second)
+				for int(atomic.LoadInt32(&count)) < k && time.Now().Before(deadline) {
+					time.Sleep(100 * time.Microsecond)
+				}
+				time.Sleep(time.Millisecond)
+				close(unblock)
+				for i := 0; i < k && ok; i++ {
+					select {
+					case <-done:
+					case <-time.After(3 * time.Second):
+						ok = false
+					}
+				}
+				if !ok {
+					out.Kind = "stuck"
+				}
+				mu.Lock()
+				w.write(out)
+				mu.Unlock()
+				n++
+				e.h["h1"].Close()
+				e.h["h2"].Close()
+			}
+		}
+	}
+	// reconfiguration while the effect of an earlier Subscribe is still running: that subscription keeps ITS handlers
+	for _, newSub := range []string{"h3", "nil"} {
+		e := &c11Env{thr: map[int64]string{gid(): "caller"}, h: map[string]*fpgo.HandlerDef{}}
+		for _, hn := range []string{"h1", "h2", "h3"} {
+			e.h[hn] = fpgo.Handler.NewByCh(make(chan func(), 8))
+		}
+		out := c11ConcOut{Part: "reconf", N: 1, ObOn: "h1", SubOn: "h2", NewSub: newSub, Kind: "ok", Effects: []c11Del{}, Delivered: []c11Del{}}
+		ok := e.syncHandler("h1") && e.syncHandler("h2") && e.syncHandler("h3")
+		hold, entered := make(chan struct{}), make(chan struct{})
+		var mu sync.Mutex
+		m := fpgo.MonadIONewGenerics(func() int {
+			who := e.who()
+			mu.Lock()
+			out.Effects = append(out.Effects, c11Del{7, who})
+			mu.Unlock()
+			close(entered)
+			<-hold
+			return 7
+		})
+		done := make(chan struct{}, 2)
+		m.ObserveOn(e.h["h1"]).SubscribeOn(e.h["h2"]).Subscribe(fpgo.Subscription[int]{OnNext: func(v int) {
+			who := e.who()
+			mu.Lock()
+			out.Delivered = append(out.Delivered, c11Del{v, who})
+			mu.Unlock()
+			done <- struct{}{}
+		}})
+		select {
+		case <-entered:
+		case <-time.After(2 * time.Second):
+			ok = false
+		}
+		if newSub == "nil" {
+			m.SubscribeOn(nil)
+		} else {
+			m.SubscribeOn(e.h[newSub])
+		}
+		close(hold)
+		select {
+		case <-done:
+		case <-time.After(3 * time.Second):
+			ok = false
+		}
+		if !ok {
+			out.Kind = "stuck"
+		}
+		mu.Lock()
+		w.write(out)
+		mu.Unlock()
+		n++
+		for _, h := range e.h {
+			h.Close()
+		}
+	}
+	return n
+}
+
 func c11Main(args []string) error {
 	switch args[0] {
+	case "conc":
+		w, err := newNDWriter(flagVal(args, "out", "c11.conc.ndjson"))
+		if err != nil {
+			return err
+		}
+		defer w.close()
+		total := 0
+		for i := 0; i < flagInt(args, "repeat", 3); i++ {
+			total += c11Conc(w)
+		}
+		fmt.Printf("{\"runs\":%d}\n", total)
+		return nil
 	case "exec":
 		w, err := newNDWriter(flagVal(args, "out", "c11.trace.ndjson"))
 		if err != nil {
